@@ -315,6 +315,35 @@ func init() {
 		}
 		return fmtOutcome(sp) + " | " + fmtOutcome(p)
 	}
+	// symscfg <src> <pos>: the position rebuilt from a Config taken from ANOTHER game (src.Config(), then size, counts and
+	// tie flag edited to pos's), its eight images and the verdict on each: a configuration is what its fields say
+	opTable["symscfg"] = func(s *Session, a []string) string {
+		src, b := decPos(a[0]), decPos(a[1])
+		cfg := src.Config()
+		bc := b.Config()
+		cfg.Size, cfg.Pieces, cfg.Capstones, cfg.BlackWinsTies = bc.Size, bc.Pieces, bc.Capstones, bc.BlackWinsTies
+		n := b.Size()
+		board := make([][]tak.Square, n)
+		for y := 0; y < n; y++ {
+			board[y] = make([]tak.Square, n)
+			for x := 0; x < n; x++ {
+				board[y][x] = b.At(x, y)
+			}
+		}
+		q, err := tak.FromSquares(cfg, board, b.MoveNumber())
+		if err != nil {
+			return "err"
+		}
+		rs, err := symmetry.Symmetries(q)
+		if err != nil {
+			return "err"
+		}
+		parts := []string{fmtOutcome(q)}
+		for _, r := range rs {
+			parts = append(parts, strconv.Itoa(symID(r.S, q.Size()))+":"+fmtOutcome(r.P))
+		}
+		return strings.Join(parts, " | ")
+	}
 	opTable["sxover"] = func(s *Session, a []string) string {
 		k := atoi(a[0])
 		p := decPos(a[1])
